@@ -917,6 +917,7 @@ func run(r *ev.Run, id string) {
 		r.Sample("graph", map[string]interface{}{"pool": p, "clients": nc, "states": res.States, "transitions": res.Transitions, "depth": res.Depth, "fixpoint": res.Fixpoint, "merge_checks": res.MergeChecks})
 	}
 	manyLeases(r, id)
+	manyHints(r, id)
 	longRun(r, id)
 	quotaLeases(r, id)
 	hintLifetimes(r, id)
@@ -1102,6 +1103,24 @@ func manyLeases(r *ev.Run, id string) {
 		}
 	}
 	r.Add("many_leases_sweeps", 1)
+}
+
+// manyHints: one IA_PD carrying 60..70 hints (more than a machine word of them), obtained in
+// one message and then renewed exactly, twice, on a 128-block pool.
+func manyHints(r *ev.Run, id string) {
+	for _, n := range []int{63, 64, 65, 70} {
+		s := NewSys(r, id, Pool{"2001:db8:0:80::/57", 64}, 1, false)
+		var hints []string
+		for k := 0; k < n; k++ {
+			hints = append(hints, s.blockPrefix(int64(k)))
+		}
+		s.Apply(Op{Client: "A", Msg: 1, IAPDs: [][]string{hints}}, true)
+		s.Apply(Op{Client: "A", Msg: 5, IAPDs: [][]string{hints}}, true)
+		s.Apply(Op{Client: "A", Msg: 5, IAPDs: [][]string{hints}}, true)
+		s.Apply(Op{Client: "A", Msg: 5, IAPDs: [][]string{{hints[n-1]}}}, true)
+		s.Apply(Op{Client: "B", Msg: 1, IAPDs: [][]string{{}}}, true)
+	}
+	r.Add("many_hints_sweeps", 4)
 }
 
 var runSched = c16.SchedPart("C08", 6)
